@@ -87,3 +87,12 @@ PROPS["C03"] = {"components": ["crash"], "monitor_props": ["C03"], "trusted_base
         "the simulated block source for the catch-up"],
     "assumptions": ["process death = unwinding at a crash point (no torn sqlite pages: sqlite's journal is trusted)"],
     "partial": "integrity at every prefix, faithfulness of the write log, atomic refund, charge-before-store, last-known-block written last are theorems; replay of unfinished blocks giving the same result as the uninterrupted run is compared on the real code at every crash point of generated histories, not proved. Known finding: last known block recorded ahead of a partially delivered poll."}
+
+TB_CLIENT = TB_COMMON + [
+    "modelled, not verified: sqlite/rusqlite (primary keys, foreign keys with ON DELETE CASCADE as in the client schema, one transaction per DBM method = atomic), serde_json serialisation of the summaries",
+    "the hand-written model of watchtower-plugin's DBM + WTClient (tied to /repo by the differential run on the real crate, not proved equal to the Rust)",
+]
+PROPS["C18"] = {"components": ["client"], "monitor_props": ["C18"], "trusted_base": TB_CLIENT,
+    "assumptions": ["set_tower_status is never called with Misbehaving (only flag_misbehaving_tower sets it): true of every call site in the plugin",
+                    "a crash point is the boundary of a DBM transaction (sqlite's atomic commit is trusted); a reload after every prefix therefore covers every crash point"],
+    "partial": ""}
